@@ -126,6 +126,38 @@ def main():
         if sel:
             ck.sample(dict(kind='validated history (first events)', owner=items[sel[0]][0],
                            events=[[e['op'], e['k'], e['res'], e['sticky']] for e in items[sel[0]][1][:8]]))
+    # 4. spec -> code: cursors held across sweeps.  Behaviours of Iter.tla (an iterator or a lazy sequence opened
+    #    over a range, stepped in some interleaving with mutations) replayed with the tree in the data manager:
+    #    committed when the cursor is opened, the whole cache swept before every cursor step - the leaf the cursor
+    #    is parked on becomes a ghost again and again.  Outcomes and structure must be exactly Iter's.
+    from harness.checks.c15 import icfg
+    plan = []
+    for (nk, lf, it, num, depth, mu, mo) in ([(8, 2, 2, 500, 40, 14, 5), (8, 3, 2, 300, 40, 12, 6)] if quick else
+                                             [(8, 2, 2, 4000, 44, 16, 5), (8, 3, 2, 2500, 44, 14, 6), (8, 2, 3, 2500, 44, 14, 6), (16, 2, 2, 3000, 90, 18, 11)]):
+        c = icfg(nk, 2, lf, it, mu, mo, 4, spec='SSpec', invs=('OutcomeOK', 'InBounds'), view=False)
+        fn, behs, summ = tlc.simulate_behaviours('IterSim', c, num, depth, seed=ck.seed + 1)
+        ck.add_tlc(summ, 'IterSim simulation keys=%d sizes=(%d,%d): %d behaviours (cursors held across sweeps)' % (nk, lf, it, len(behs)))
+        for fam in (['II', 'OO', 'fs'] if quick else ['II', 'OO', 'fs', 'LF', 'OI', 'QQ', 'IO', 'UU']):
+            for impl in ('c', 'py'):
+                for is_set in (True, False):
+                    nparts = 1 if quick else 2
+                    for p in range(nparts):
+                        plan.append(dict(fam=fam, impl=impl, is_set=is_set, leaf=lf, internal=it, dump=fn, part=p, nparts=nparts,
+                                         pure=(impl == 'py'), evict=True))
+    results = jobs.run_jobs('harness.workers.iter_worker', plan, pure=True)
+    for job, res, err in results:
+        ident = dict(fam=job['fam'], impl=job['impl'], is_set=job['is_set'], sizes=[job['leaf'], job['internal']])
+        if err:
+            ck.violation('cursor worker died %s: %s' % (ident, err[-1500:]), dict(ident, kind='crash', err=err[-3000:]))
+            continue
+        for k in ('behaviours', 'cursor_steps', 'sweeps', 'ghosts_made', 'evict_behaviours', 'skipped_embed'):
+            ck.bump('cursor_%s' % k, res['counts'][k])
+        ck.add_traces(res['counts']['evict_behaviours'])
+        for mm in res['mismatches']:
+            ck.violation('%s %s %s sizes=%s cursor held across sweeps: %s after %s' % (
+                mm['fam'], mm['impl'], 'set' if mm['is_set'] else 'map', mm['sizes'], mm['kind'], mm['history'][-4:]), dict(mm, kind='cursor-' + mm['kind']))
+    if plan and not ck.notes.get('cursor_ghosts_made'):
+        common.machinery_failure('the sweeps before cursor steps evicted nothing')
     ck.assumptions += ['stand-in data manager with a persistent.PickleCache (harness/minijar.py); sweeps are cache.minimize() and _p_deactivate()',
                        'pins are observed through _p_state (2 = sticky)']
     ck.finish(exhaustive=False)
